@@ -15,7 +15,7 @@ for name in sorted(os.listdir("/verif/seeded")):
             res = json.loads(open(rp).read().strip().splitlines()[-1])
         except Exception:
             res = None
-        if res and res.get("applies") and "strengthened" not in meta.get("note", ""):   # (entries updated by hand after a later strengthening are newer than this matrix)
+        if res and res.get("applies") and (os.environ.get("FORCE") == "1" or "strengthened" not in meta.get("note", "")):   # (entries updated by hand after a later strengthening are newer than this matrix)
             det = sorted(c for c, rc in res["checks"].items() if rc != 0)
             meta["detected_by"] = det
             meta["matrix"] = "tools/matrix.sh: patch applied in a scratch worktree of /repo HEAD, every check's quick tier run with VERIF_REPO pointing at it"
